@@ -855,6 +855,8 @@ func (self pnSlice) Less(i, j int) bool {
 	return uintptr(vi) < uintptr(vj)
 }
 
+// Sort orders the nodes by address. It is stable: new nodes have no address,
+// they are elements appended to a LIST (or pairs with the same key) and must keep the order they are given in
 func (self *pnSlice) Sort() {
-	sort.Sort(self)
+	sort.Stable(self)
 }
